@@ -8,15 +8,83 @@ import (
 )
 
 // cellLoadName: v is a load of a captured variable cell (freevar) of the given name.
+// c17Cells: the local variables of ShardByPrefix the rules speak about, found by what they ARE (never by their
+// spelling): keys = the cell the first parameter is spilled into; firstDiffs = the cell that receives
+// FirstDiffBits(..); dfs = the cell that receives the closure; prefixes / keyCnts = the cells loaded into the first /
+// second result. A name that cannot be resolved this way falls back to the variable's own name.
+var c17Cells = map[string]*ssa.Alloc{}
+
+func resolveC17Cells(fn *ssa.Function, firstDiffBits *ssa.Function) {
+	c17Cells = map[string]*ssa.Alloc{}
+	eachInstr(fn, func(ins ssa.Instruction) {
+		switch x := ins.(type) {
+		case *ssa.Store:
+			al, ok := x.Addr.(*ssa.Alloc)
+			if !ok {
+				return
+			}
+			switch v := x.Val.(type) {
+			case *ssa.Parameter:
+				if len(fn.Params) > 0 && v == fn.Params[0] {
+					c17Cells["keys"] = al
+				}
+				if len(fn.Params) > 1 && v == fn.Params[1] {
+					c17Cells["maxSize"] = al
+				}
+			case *ssa.Call:
+				if v.Common().StaticCallee() == firstDiffBits && firstDiffBits != nil {
+					c17Cells["firstDiffs"] = al
+				}
+			case *ssa.MakeClosure:
+				c17Cells["dfs"] = al
+			}
+		case *ssa.Return:
+			for i, nm := range []string{"prefixes", "keyCnts"} {
+				if i < len(x.Results) {
+					if u, ok := stripConv(x.Results[i]).(*ssa.UnOp); ok && u.Op == token.MUL {
+						if al, ok := u.X.(*ssa.Alloc); ok {
+							if _, have := c17Cells[nm]; !have {
+								c17Cells[nm] = al
+							}
+						}
+					}
+				}
+			}
+		}
+	})
+}
+
+// c17CellName: the canonical name of a captured variable (its own name when it is not one of the known cells).
+func c17CellName(fv *ssa.FreeVar) string {
+	if b, ok := freeVarBinding(fv).(*ssa.Alloc); ok {
+		for nm, al := range c17Cells {
+			if al == b {
+				return nm
+			}
+		}
+		// maxSize and other captured parameters
+		return cellRole(b)
+	}
+	return fv.Name()
+}
+
 func isCellLoad(v ssa.Value, name string) bool {
 	u, ok := stripConv(v).(*ssa.UnOp)
 	if !ok || u.Op != token.MUL {
 		return false
 	}
+	want := c17Cells[name]
 	switch x := u.X.(type) {
 	case *ssa.FreeVar:
+		if want != nil {
+			b, _ := freeVarBinding(x).(*ssa.Alloc)
+			return b == want
+		}
 		return x.Name() == name
 	case *ssa.Alloc:
+		if want != nil {
+			return x == want
+		}
 		return x.Comment == name
 	}
 	return false
@@ -41,6 +109,7 @@ func runC17(c *Ctx, w *World, r *Report) {
 		return
 	}
 	dfs := fn.AnonFuncs[0]
+	resolveC17Cells(fn, fns["sigbits.FirstDiffBits"])
 	fa := w.FA(dfs)
 	sP, eP := ssa.Value(dfs.Params[0]), ssa.Value(dfs.Params[1])
 	sL, eL := fa.Lin(sP), fa.Lin(eP)
@@ -127,7 +196,7 @@ func runC17(c *Ctx, w *World, r *Report) {
 			if len(vals) != 1 {
 				return
 			}
-			switch fv.Name() {
+			switch c17CellName(fv) {
 			case "keyCnts":
 				nb++
 				boundaryBlk = st.Block()
@@ -180,7 +249,7 @@ func runC17(c *Ctx, w *World, r *Report) {
 			// the recursive call goes through the captured variable holding the closure
 			isRec := false
 			if u, ok := call.Common().Value.(*ssa.UnOp); ok && u.Op == token.MUL {
-				if fv, ok := u.X.(*ssa.FreeVar); ok && fv.Name() == "dfs" {
+				if fv, ok := u.X.(*ssa.FreeVar); ok && c17CellName(fv) == "dfs" {
 					isRec = true
 				}
 			}
@@ -461,6 +530,14 @@ func storeTargetOf(call *ssa.Call) (string, bool) {
 	for _, ref := range *call.Referrers() {
 		if st, ok := ref.(*ssa.Store); ok {
 			if fv, ok := st.Addr.(*ssa.FreeVar); ok {
+				// the canonical name of the captured cell, when it is one the rules know
+				if b, ok := freeVarBinding(fv).(*ssa.Alloc); ok {
+					for nm, al := range c17Cells {
+						if al == b {
+							return nm, true
+						}
+					}
+				}
 				return fv.Name(), true
 			}
 		}
